@@ -7,6 +7,7 @@ import json
 import os
 import warnings
 
+from mc.recs import rs
 from mc import recs, refcodec, streamspace
 from mc.obs import obs_list
 from mc.report import ROOT, Run, jhash
@@ -189,8 +190,16 @@ def run_golden(case):
             "count": {"golden_files_read": n, "golden_byte_identical": 1 if same else 0}, "sample": case}
 
 
+def many_types(n):
+    """n record types announced once each, then records of early, middle and late types again (registry size classes)."""
+    specs = [rs("t/m%d" % i, [["varint", "n"], ["string", "s"]], [str(i), "'v%d'" % i]) for i in range(n)]
+    return specs + [specs[0], specs[1], specs[n // 2], specs[n - 1], specs[0]]
+
+
 def all_cases(tier, seed):
     yield from golden_cases()
+    for n in (255, 256, 257, 511, 512, 513, 600, 1025) + ((4097, 70000) if tier == "thorough" else ()):
+        yield {"kind": "manytypes", "t": "registry", "n": n, "records": many_types(n)}
     yield from streamspace.cases(tier, seed)
 
 
